@@ -1,7 +1,7 @@
 // C12: ECDH session-key padding (RFC 9580 11.5 / RFC 6637 8: PKCS5-style, block size 8): for every
 // plaintext length the padded length is the next multiple of 8 *strictly* greater than... i.e. 1..=8 padding
 // octets, each holding the padding length.  Child module of crypto/ecdh.rs (`pad` is private).
-#![allow(unused, dead_code)]
+#![allow(unused, dead_code, unsafe_code)]
 use super::*;
 use crate::__verif_common::*;
 
@@ -29,3 +29,74 @@ vproof!(c12_ecdh_pad_8, 20, { pad_case::<8>() });
 vproof!(c12_ecdh_pad_9, 20, { pad_case::<9>() });
 vproof!(c12_ecdh_pad_16, 28, { pad_case::<16>() });
 vproof!(c12_ecdh_pad_19, 30, { pad_case::<19>() });
+
+// ---- UNREGISTERED PROBE (timeout 600 s: symbolic pad length drives Vec::truncate and a slice iterator) ------
+// ---- C04: unpadding of attacker-chosen key-wrap plaintext --------------------------------------------------
+// derive_session_key with the KDF and the AES key unwrap modelled (unwrap returns N ARBITRARY octets: what a
+// sender who knows the recipient's public key can make the unwrapped value be): never a panic; Ok only for a
+// well-formed PKCS5 tail, and then exactly the octets before it.
+static mut UNWRAPPED: [u8; 16] = [0u8; 16];
+static mut UNWRAPPED_LEN: usize = 0;
+pub fn stub_kdf(_hash: HashAlgorithm, _x: &[u8], length: usize, _param: &[u8]) -> Result<Vec<u8>> {
+    Ok(vec![7u8; length])
+}
+pub fn stub_unwrap(_key: &[u8], _data: &[u8]) -> core::result::Result<zeroize::Zeroizing<Vec<u8>>, crate::crypto::aes_kw::Error> {
+    #[allow(static_mut_refs)]
+    let v = unsafe { UNWRAPPED[..UNWRAPPED_LEN].to_vec() };
+    Ok(zeroize::Zeroizing::new(v))
+}
+
+fn unpad_case<const N: usize>() {
+    let plain: [u8; N] = kani::any();
+    #[allow(static_mut_refs)]
+    unsafe {
+        let mut i = 0;
+        while i < N {
+            UNWRAPPED[i] = plain[i];
+            i += 1;
+        }
+        UNWRAPPED_LEN = N;
+    }
+    let wrapped = [0u8; 24];
+    let fpr = [0u8; 20];
+    let shared = [1u8; 32];
+    let r = okf(derive_session_key(&shared[..], &wrapped[..N + 8], N + 8, ECCCurve::Curve25519Legacy, HashAlgorithm::Sha256, SymmetricKeyAlgorithm::AES128, &fpr[..]));
+    // reference: last octet p in 1..=N, the last p octets all equal p, at least one octet left
+    let p = if N > 0 { plain[N - 1] as usize } else { 0 };
+    let mut tail_ok = N > 0 && N % 8 == 0 && p <= N;
+    let mut j = 0;
+    while j < N {
+        if tail_ok && j >= N - p {
+            tail_ok = plain[j] as usize == p;
+        }
+        j += 1;
+    }
+    let good = tail_ok && p < N;
+    kani::cover!(r.is_some(), "maybe: a well-formed padding is accepted");
+    match r {
+        None => assert!(!good, "C12/C04: well-formed ECDH session-key padding refused"),
+        Some(k) => {
+            assert!(good, "C04: malformed ECDH session-key padding accepted");
+            assert!(k.len() == N - p, "C12: unpadded ECDH session key has the wrong length");
+            if N - p > 0 {
+                assert!(k[0] == plain[0], "C12: unpadded ECDH session key is not the prefix of the unwrapped octets");
+            }
+            core::mem::forget(k);
+        }
+    }
+}
+macro_rules! eproof {
+    ($name:ident, $n:expr) => {
+        #[kani::proof]
+        #[kani::unwind(20)]
+        #[kani::stub(std::fmt::format, crate::__verif_common::stub_format)]
+        #[kani::stub(snafu::backtrace_collection_enabled, crate::__verif_common::stub_bt)]
+        #[kani::stub(crate::crypto::ecdh::kdf, stub_kdf)]
+        #[kani::stub(crate::crypto::aes_kw::unwrap, stub_unwrap)]
+        fn $name() {
+            unpad_case::<$n>()
+        }
+    };
+}
+eproof!(c04_ecdh_unpad_8, 8);
+eproof!(c04_ecdh_unpad_16, 16);
